@@ -274,6 +274,10 @@ def hostile_environment_failure(case, obs):
         return None
     ast = strip_taps(case['ast'])
     ks = kinds(ast)
+    alien = [o for st in obs['steps'] for o in st if o[0] == '?']
+    if alien:
+        return {'sig': 'environment:not-a-mux-event', 'what': 'the subscriber of the multiplexed pipeline was handed objects that '
+                'are not mux events: %s' % json.dumps(alien[:3])}
     # the stream handed to the subscriber is itself a boundary (C03): on a well-formed input without source errors
     # it must be well-formed whatever the pipeline - e.g. a result delivered after its key's completion
     if not any(e[0] == 'e' for e in case['trace']) and not has_fatal(obs['steps']):
